@@ -112,6 +112,8 @@ def run(F, res, tier):
                     ok = bool(n0) and bool(n1) and n0.get("l") == n1.get("l") and n0.get("k") == n1.get("k")
         res.ob("A2", "hit/" + nme, "FindUsages::%s reports (file of the node, text_range of the same node)" % nme, ok, where=f.loc(),
                how="both derive from the same node" if ok else "provenance not established")
+    from rules import c06
+    c06.highlight_current_file(F, res, "A2")
     # ---- A3
     errs = [(f.path, s["ln"]) for f, b, s in EF.constructions(F, "syntax::Error", None, "") if not f.d.get("impl_trait")]
     res.ob("A3", "error-single-producer", "syntax::Error values are built only in Parser::error", [e[0] for e in errs] == [PM.P + "error"],
